@@ -9327,6 +9327,13 @@ class SVG(Group):
                         try:
                             if s.height == 0 or s.width == 0:
                                 raise ZeroDivisionError
+                            for dim in (s.x, s.y, s.width, s.height):
+                                if isinstance(dim, Length):
+                                    # A position or size that could not be resolved (font-relative units) cannot
+                                    # be used either: the element is in error.
+                                    if on_error == "raise":
+                                        raise ValueError("%s could not be resolved." % str(dim))
+                                    raise ZeroDivisionError
                             viewport_transform = s.viewbox_transform
                         except ZeroDivisionError:
                             # The width or height was zero.
